@@ -327,6 +327,18 @@ class MonC02(object):
                         if dep == DEP.SF and not (pred in self.st.started_before_update or exempt(pred)):
                             ok = False
                     tr.counters["C02.zero_waiting"] += 1
+                    # strict reading (the finish check is a fixed point since F2): the finish dependencies
+                    # hold *now*, after this update, so the task must be FINISHED now
+                    now_ok = True
+                    for pred, dep in t.input_task_list:
+                        if dep == DEP.FF and snap.tstate.get(pred) != TS.FINISHED:
+                            now_ok = False
+                        if dep == DEP.SF and not (self.st.is_started(pred) or exempt(pred)):
+                            now_ok = False
+                    if now_ok and not ok:
+                        tr.violate("C02", "C02/not-finished-although-finish-dependencies-hold-now",
+                                   "task %s has remaining %r since step %d and its finish dependencies hold after the update of step %d, but it is %s" % (
+                                       t.ID, prev.rem[t], prev.step, snap.step, st.name), task=t)
                     if ok:
                         mech = "C02/not-finished-after-zero"
                         sfp = [p for p, d in t.input_task_list if d == DEP.SF and prev.tstate.get(p) == TS.FINISHED]
@@ -762,6 +774,20 @@ class MonC06(object):
                             if s is None or s > prev.step:
                                 ok = False
                     tr.counters["C06.zero_checks"] += 1
+                    now_ok = True
+                    for pred, dep in t.input_task_list:
+                        if dep == DEP.FF and cur.tstate.get(pred) != TS.FINISHED:
+                            now_ok = False
+                        if dep == DEP.SF:
+                            # a predecessor can only start *after* the update of a step (allocation), so
+                            # "has started" at the update of cur.step means started by the previous step
+                            s = self.started_at.get(pred)
+                            if s is None or s > prev.step:
+                                now_ok = False
+                    if now_ok and not ok:
+                        tr.violate("C06", "C06/not-finished-although-finish-dependencies-hold-now",
+                                   "task %s reached zero at step %d, its finish dependencies hold at step %d, but it is logged %s there" % (
+                                       t.ID, prev.step, cur.step, cur.tstate.get(t).name), task=t)
                     if ok:
                         mech = "C06/not-finished-after-zero"
                         if [p for p, d in t.input_task_list if d == DEP.SF and prev.tstate.get(p) == TS.FINISHED]:
